@@ -331,6 +331,8 @@ pub fn match_(s: Expr, a: (MPat, Expr), b: (MPat, Expr)) -> Expr {
 #[derive(Clone, Debug)]
 pub struct CallSite {
     pub kind: &'static str,
+    /// name of the function the call occurs in
+    pub in_fn: String,
     pub tok_start: usize,
     pub tok_end: usize,
 }
@@ -350,6 +352,7 @@ pub struct RenderOpts {
 #[derive(Default)]
 pub struct Tokens {
     pub toks: Vec<String>,
+    pub current_fn: String,
     pub calls: Vec<CallSite>,
     pub opts: RenderOpts,
 }
@@ -653,7 +656,7 @@ impl Tokens {
                 }
                 self.t(")");
                 if let Some(kind) = kind {
-                    self.calls.push(CallSite { kind, tok_start: start, tok_end: self.toks.len() });
+                    self.calls.push(CallSite { kind, in_fn: self.current_fn.clone(), tok_start: start, tok_end: self.toks.len() });
                 }
             }
         }
@@ -668,6 +671,7 @@ impl Tokens {
                 self.t(";");
             }
             Item::Fn(f) => {
+                self.current_fn = f.name.clone();
                 self.t("fn");
                 self.t(&f.name);
                 self.t("(");
